@@ -316,8 +316,9 @@ def hist_replay(payload):
             raise Inconclusive(r["error"])
     if any(not r["ok"] for r in res):
         return True
-    if payload["run_cmd"][0] == "conc-run" and payload.get("_attempt", 0) < 3:
-        # scheduling-dependent behaviour: allow a few attempts to see it again
+    if payload.get("_attempt", 0) < 3:
+        # behaviour that depends on goroutine scheduling or on Go's randomised map iteration (e.g. which pending slab the
+        # order-relaxed commit writes first) does not show in every execution: a few more fresh processes
         return hist_replay(dict(payload, _attempt=payload.get("_attempt", 0) + 1))
     return False
 
@@ -683,6 +684,8 @@ def check_C05(rep):
     map_collide_stage(rep, "MapTrace_C05.cfg", "real OrderedMap " + what, "c05", 255, 3, (1, 40) if quick else (1, 4))
     map_slab_stage(rep, "MapTrace_C05.cfg", "real OrderedMap " + what, "c05")
     map_full_stage(rep, "MapTrace_C05.cfg", "real OrderedMap " + what, "c05")
+    deep_map_shrink_stage(rep, "c05", "C05", "real OrderedMap " + what + " (three levels, shrinking)")
+    thinning_family(rep, "c05", "real OrderedMap " + what + " (even thinning of a three-level map)", "real Array " + what + " (even thinning of a three-level array)")
     array_fan_stage(rep, "ArrayTrace_C05.cfg", "real Array " + what + " (operation on a full root index slab)", "c05")
     map_fan_stage(rep, "MapTrace_C05.cfg", "real OrderedMap " + what + " (operation on a full root index slab)", "c05")
     for (T, nkeys, mode, ksz, vs, maxel, num, depth) in ([(256, 40, "spread", 5, "{12, 40, 60, 101}", 107, 14, 150), (256, 24, "clustered", 5, "{12, 40}", 107, 8, 100)] if quick else
@@ -1766,6 +1769,91 @@ def deep_array_probe_stage(rep, prefix, cfgname, what, probes):
     base = len(rep.distinct)
     rep.distinct.update(range(base, base + wn))
     hist_stage(rep, nm, probe_cmd("array-run", probes, rep) + ["-tail", "2"], "array", "ArrayTrace.tla", "ArrayTrace_%s.cfg" % cfgname, wf, "tail", what)
+
+
+def deep_map_shrink_stage(rep, prefix, cfgname, what):
+    """Three-level maps (large values) grown and then SHRUNK key by key, every removal recorded: inner index slabs repeatedly reach
+    their minimum and borrow from / merge with siblings that are themselves at or near the minimum."""
+    quick = rep.tier == "quick"
+    grow, shrink, num = (170, 110, 3) if quick else (260, 200, 40)
+    depth = grow + shrink
+    nm = prefix + "-deepmap-shrink"
+    wf, wn = sim_histories(rep, "MC_MapWalk.tla", "MC_MapWalk.cfg",
+                           {"Keys": keyset(grow + 40), "DigMode": '"spread"', "KSz": 5, "VSizes": "{60, 101}", "AllowPop": "FALSE",
+                            "GrowUntil": grow, "ShrinkFrom": grow},
+                           "MC_MapWalk growth to three slab levels (%d steps) then removals only (%d steps, all recorded)" % (grow, shrink),
+                           {"cfg": {"T": 256, "limit": 255}}, nm, num, depth, workers=4)
+    base = len(rep.distinct)
+    rep.distinct.update(range(base, base + wn))
+    hist_stage(rep, nm, ["map-run", "-tail", str(shrink)], "map", "MapTrace.tla", "MapTrace_%s.cfg" % cfgname, wf, "tail", what)
+
+
+def deep_map_minfan_stage(rep, tcfg, what, prefix):
+    """Boundary search in three-level maps: grow, shrink, then - at the states in which two adjacent inner index slabs both hold the
+    minimum number of children - replay every overwrite and every removal (one-step closure)."""
+    quick = rep.tier == "quick"
+    for (grow, shrink, fan, num) in ([(170, 85, 110, 2)] if quick else [(170, 85, 130, 10), (230, 110, 160, 8)]):
+        depth = grow + shrink + fan
+        boundary_fan_stage(rep, "%s-mapminfan%d" % (prefix, depth), ["map-run"], "map", "MC_MapWalk.tla", "MC_MapWalk.cfg",
+                           {"Keys": keyset(grow + 40), "DigMode": '"spread"', "KSz": 5, "VSizes": "{60, 101}", "AllowPop": "FALSE",
+                            "GrowUntil": grow, "ShrinkFrom": grow, "FanShrink": "TRUE"},
+                           "MC_MapWalk growth to three slab levels, removals only for %d steps, then a shrinking fan window" % shrink,
+                           {"cfg": {"T": 256, "limit": 255}},
+                           "MapTrace.tla", tcfg, what, num, depth, fan, want=("innermin2",), maxcuts=8, nhdr=1)
+
+
+def thinning_family(rep, prefix, what_map, what_array):
+    """Scripted family: containers grown to three slab levels (large elements) and then thinned EVENLY - every second element in
+    key / index order, again and again - so that all data slabs shrink at the same rate and all inner index slabs reach their
+    minimum together (adjacent siblings with nothing to spare: borrow-versus-merge decisions at the exact boundary).  Every
+    removal is recorded and judged."""
+    def spread(k):
+        return [(k * 37) % 1009, (k * 11) % 7, k % 3, k % 2]
+    mh = []
+    for (N, pat) in ((150, (60, 101)), (170, (101, 60, 60)), (130, (101,)), (160, (60,)), (190, (101, 12))):
+        keys = list(range(1, N + 1))
+        h = [["dig"] + [spread(k) for k in keys]]
+        for i, k in enumerate(keys):
+            sz = pat[i % len(pat)]
+            h.append(["mset", k, 5, (i + 1) * 1000 + sz, sz])
+        left = sorted(keys, key=lambda k: spread(k)[0])
+        rem = []
+        while len(left) > 6:
+            rem += left[0::2]
+            left = left[1::2]
+        h += [["mrem", k, 5] for k in rem]
+        mh.append((h, len(rem)))
+    f = os.path.join(vlib.scratch(), prefix + "-mthin.ndjson")
+    with open(f, "w") as fh:
+        fh.write(json.dumps({"cfg": {"T": 256, "limit": 255}}) + "\n")
+        for h, _ in mh:
+            fh.write(json.dumps(h) + "\n")
+    base = len(rep.distinct)
+    rep.distinct.update(range(base, base + len(mh)))
+    hist_stage(rep, prefix + "-map-thinning", ["map-run", "-tail", str(max(n for _, n in mh))], "map", "MapTrace.tla",
+               "MapTrace_C05.cfg", [f], "tail", what_map)
+    ah = []
+    for (N, pat) in ((90, (90, 117)), (110, (117, 60, 117)), (80, (117,)), (130, (60, 90))):
+        h = []
+        for i in range(N):
+            sz = pat[i % len(pat)]
+            h.append(["ins", i, i + 1, sz])
+        n, nrem = N, 0
+        while n > 6:
+            for i in range(n - 1, -1, -2):      # from the end: earlier indexes do not shift
+                h.append(["rem", i])
+                nrem += 1
+            n = n // 2
+        ah.append((h, nrem))
+    f = os.path.join(vlib.scratch(), prefix + "-athin.ndjson")
+    with open(f, "w") as fh:
+        fh.write(json.dumps({"cfg": {"T": 256}}) + "\n")
+        for h, _ in ah:
+            fh.write(json.dumps(h) + "\n")
+    base = len(rep.distinct)
+    rep.distinct.update(range(base, base + len(ah)))
+    hist_stage(rep, prefix + "-array-thinning", ["array-run", "-tail", str(max(n for _, n in ah))], "array", "ArrayTrace.tla",
+               "ArrayTrace_C05.cfg", [f], "tail", what_array)
 
 
 def check_C03(rep):
